@@ -248,6 +248,8 @@ def run_check(prop, tier, seed, jobs):
         return inconclusive(prop, "no oracle comparison was performed")
     if len(digests) < 2:
         return inconclusive(prop, "fewer than 2 distinct non-trivial cases")
+    if counters.get("case_timeouts", 0) > max(3, evaluations // 50):
+        return inconclusive(prop, f"{counters['case_timeouts']} cases hit the per-case wall-clock backstop")
     for a, n in anchor_reach.items():
         if n == 0:
             return inconclusive(prop, f"anchored mechanism {a} was never entered")
